@@ -242,6 +242,64 @@ func pairSweep(c *explore.Ctx) {
 
 // lengths: drop or insert one byte at every position (field-width changes:
 // one-digit hour, 5-digit year, ...), which time.Parse sometimes accepts.
+// thorough only: every pair of byte values at every two adjacent positions
+func adjacentFull(c *explore.Ctx) {
+	L := 20 + c.Choose(11)
+	kind := c.Choose(2)
+	base := baseOfLen(L, kind)
+	p := c.Choose(L - 1)
+	b := []byte(base)
+	acc, n := 0, 0
+	for x := 0; x < 256; x++ {
+		for y := 0; y < 256; y++ {
+			copy(b, base)
+			b[p], b[p+1] = byte(x), byte(y)
+			if compareParse(c, "adjacent-full", string(b)) {
+				acc++
+			}
+			n++
+		}
+	}
+	c.Inner(int64(n))
+	c.NontrivialStr("adjacent", base, fmt.Sprint(p))
+	c.Outcome(fmt.Sprintf("accepted>1=%v", acc > 1))
+	if c.WantSample() {
+		c.Case(map[string]any{"base": base, "positions": []int{p, p + 1}, "byte_pairs": 65536, "accepted": acc})
+	}
+}
+
+// thorough only: all triples of positions x class alphabet cubed
+func tripleSweep(c *explore.Ctx) {
+	L := []int{20, 21, 25, 29, 30}[c.Choose(5)]
+	kind := c.Choose(2)
+	base := baseOfLen(L, kind)
+	p1 := c.Choose(L)
+	b := []byte(base)
+	acc, n := 0, 0
+	for p2 := p1 + 1; p2 < L; p2++ {
+		for p3 := p2 + 1; p3 < L; p3++ {
+			for _, x := range classBytes {
+				for _, y := range classBytes {
+					for _, z := range classBytes {
+						copy(b, base)
+						b[p1], b[p2], b[p3] = x, y, z
+						if compareParse(c, "triple-sweep", string(b)) {
+							acc++
+						}
+						n++
+					}
+				}
+			}
+		}
+	}
+	c.Inner(int64(n))
+	c.NontrivialStr("triple", base, fmt.Sprint(p1))
+	c.Outcome(fmt.Sprintf("accepted>0=%v", acc > 0))
+	if c.WantSample() {
+		c.Case(map[string]any{"base": base, "first_position": p1, "alphabet": string(classBytes), "cases": n, "accepted": acc})
+	}
+}
+
 func editSweep(c *explore.Ctx) {
 	L := 19 + c.Choose(13)
 	kind := c.Choose(2)
@@ -415,6 +473,8 @@ func Spec() *explore.Spec {
 			{Name: "fractions", ShardDepth: 2, Body: fractions, Doc: "fraction length 0-11 x digit patterns x zone suffix x {'.', ','}"},
 			{Name: "byte-sweep", ShardDepth: 2, Body: byteSweep, Doc: "every position x all 256 byte values for base timestamps of every length 19..31 (Z and numeric offset)"},
 			{Name: "pair-sweep", ShardDepth: 2, Body: pairSweep, Doc: "all pairs of positions x 16-byte class alphabet squared, lengths 20..30"},
+			{Name: "adjacent-full", ShardDepth: 3, Tiers: []string{"thorough"}, Body: adjacentFull, Doc: "thorough only: all 65536 byte pairs at every two adjacent positions of base timestamps of every length 20..30 (Z and numeric offset)"},
+			{Name: "triple-sweep", ShardDepth: 3, Tiers: []string{"thorough"}, Body: tripleSweep, Doc: "thorough only: all triples of positions x 16-byte class alphabet cubed, lengths 20, 21, 25, 29, 30"},
 			{Name: "edit-sweep", ShardDepth: 2, Body: editSweep, Doc: "delete / insert one byte at every position (width changes)"},
 			{Name: "valid-sweep", Body: validSweep, Doc: "Valid on every grammar skeleton, truncation, extension, substitution, deletion, duplication x 32 flag subsets"},
 			{Name: "valid-allocs", ShardDepth: 1, Serial: true, Body: validAllocs, Doc: "Valid performs no allocation (AllocsPerRun) on every skeleton x flag subset"},
